@@ -197,7 +197,7 @@ class PersistentRemoteWorker(PersistentWorker, RemoteWorker):
 
     def _cleanup(self):
         try:
-            send_msg(self._socket, (self._counter, False, None, self.id))
+            send_msg(self._socket, (getattr(self, '_counter', 0), False, None, self.id))
         except ConnectionClosedError:
             pass
 
